@@ -365,6 +365,91 @@ def c03_toposort_replay(res, case):
     _ok(res, sig)
 
 
+def c03_guards_and_depth(res):
+    """(a) Guard idioms: a selection (where / select / boolean or integer indexing) keeps a singular branch away
+    from the points where it is singular, so the cotangent reaching the selection is infinite or NaN at the
+    unselected entries; the reverse-mode gradient is the finite analytic one (a dependency path through an
+    unselected entry contributes nothing). (b) Graphs far deeper than the interpreter's recursion limit
+    (thousands of sequential operations, ladders of diamonds, dead branches): the gradient equals the one from
+    the hand-written derivative recursion; an exception where plain NumPy runs is a violation."""
+    import sys
+
+    import autograd.numpy as anp
+    from autograd import grad
+
+    x = onp.array([0.25, 4.0, 0.5, 9.0, 1.0000001, 0.0])
+    big = x > 1
+    safe = onp.where(big, x, 1.0)
+    G = {
+        "sqrt_of_where": (lambda t: anp.sum(anp.sqrt(anp.where(t > 1, t, 0.0))), onp.where(big, 0.5 / onp.sqrt(safe), 0.0)),
+        "sqrt_of_where_times_x": (lambda t: anp.sum(anp.sqrt(anp.where(t > 1, t, 0.0)) * t), onp.where(big, 1.5 * onp.sqrt(safe), 0.0)),
+        "reciprocal_of_where_inf": (lambda t: anp.sum(1.0 / anp.where(t > 1, t, onp.inf)), onp.where(big, -1.0 / safe**2, 0.0)),
+        "log_of_where_other_branch": (lambda t: anp.sum(anp.log(anp.where(t <= 1, 1.0, t))), onp.where(big, 1.0 / safe, 0.0)),
+        "where_of_sqrt_double_guard": (lambda t: anp.sum(anp.where(t > 1, anp.sqrt(anp.where(t > 1, t - 1.0, 0.0)), 0.0)), onp.where(big, 0.5 / onp.sqrt(onp.where(big, x - 1.0, 1.0)), 0.0)),
+        "sqrt_of_select": (lambda t: anp.sum(anp.sqrt(anp.select([t > 1], [t], 0.0))), onp.where(big, 0.5 / onp.sqrt(safe), 0.0)),
+        "power_of_where_array_branch": (lambda t: anp.sum(anp.where(t > 1, t, onp.zeros(6)) ** 0.5), onp.where(big, 0.5 / onp.sqrt(safe), 0.0)),
+        "sqrt_of_bool_index_then_dense": (lambda t: anp.sum(anp.sqrt((t - 1.0)[t > 1])) + anp.sum(t), onp.where(big, 0.5 / onp.sqrt(onp.where(big, x - 1.0, 1.0)), 0.0) + 1.0),
+        "where_broadcast_scalar_cond_row": (lambda t: anp.sum(anp.sqrt(anp.where((t > 1)[None, :], anp.stack([t, 2.0 * t]), 0.0))), onp.where(big, (0.5 + onp.sqrt(0.5)) / onp.sqrt(safe), 0.0)),
+    }
+    for name, (f, want) in G.items():
+        res["evaluations"] += 1
+        sig = {"engine": "graph", "family": "guard_idiom", "fn": name}
+        case = {"kind": "c03_fixed", "fn": name}
+        try:
+            with warnings.catch_warnings():
+                warnings.simplefilter("ignore")
+                with onp.errstate(all="ignore"):
+                    got = grad(f)(x)
+        except Exception as e:
+            _viol(res, sig, "exception:" + type(e).__name__, case, traceback.format_exc()[-300:])
+            continue
+        if onp.shape(got) != x.shape or not onp.all(onp.isfinite(got)) or not onp.allclose(got, want, rtol=1e-12, atol=1e-12):
+            _viol(res, sig, "wrong_value", case, "gradient %s, analytic %s" % (common.brief(onp.asarray(got)), common.brief(want)))
+        else:
+            _ok(res, sig)
+    t0 = onp.array([0.3, -0.4, 1.1])
+    for name, depth in (("chain", 3000), ("diamond_ladder", 1500), ("chain_with_dead_branches", 2000)):
+        res["evaluations"] += 1
+        sig = {"engine": "graph", "family": "deep_graph", "fn": name, "depth": depth, "recursion_limit": sys.getrecursionlimit()}
+        case = {"kind": "c03_fixed", "fn": name}
+
+        def f(t, xp=anp):
+            y = t
+            for i in range(depth):
+                if name == "chain":
+                    y = xp.sin(y) * 0.999 + 0.001 * t
+                elif name == "diamond_ladder":
+                    a, b = xp.sin(y), xp.cos(y)
+                    y = 0.6 * a + 0.3 * b * a + 0.001 * t
+                else:
+                    dead = xp.exp(y) * y  # never reaches the output
+                    y = xp.tanh(y) * 0.999 + 0.001 * t
+            return xp.sum(y)
+
+        # derivative by the hand-written forward recursion d_{i+1} = phi'(y_i) d_i + 0.001
+        y, d = t0.copy(), onp.ones(3)
+        for i in range(depth):
+            if name == "chain":
+                y, d = onp.sin(y) * 0.999 + 0.001 * t0, onp.cos(y) * 0.999 * d + 0.001
+            elif name == "diamond_ladder":
+                a, b = onp.sin(y), onp.cos(y)
+                da, db = onp.cos(y) * d, -onp.sin(y) * d
+                y, d = 0.6 * a + 0.3 * b * a + 0.001 * t0, 0.6 * da + 0.3 * (db * a + b * da) + 0.001
+            else:
+                y, d = onp.tanh(y) * 0.999 + 0.001 * t0, (1 - onp.tanh(y) ** 2) * 0.999 * d + 0.001
+        try:
+            with warnings.catch_warnings():
+                warnings.simplefilter("ignore")
+                got = grad(f)(t0)
+        except BaseException as e:
+            _viol(res, sig, "exception:" + type(e).__name__, case, "%d sequential operations: %s" % (depth, str(e)[:200]))
+            continue
+        if not onp.allclose(got, d, rtol=1e-9, atol=1e-12):
+            _viol(res, sig, "wrong_value", case, "gradient %s, recursion %s" % (common.brief(onp.asarray(got)), common.brief(d)))
+        else:
+            _ok(res, sig)
+
+
 def c03_make(rng, tier, i):
     n_ops = int(rng.choice([5, 8, 12, 20, 35, 60] if tier == "thorough" else [5, 8, 12, 20, 35]))
     shape = [(3,), (2, 2), (4,), (2, 3)][int(rng.integers(0, 4))]
@@ -704,6 +789,32 @@ def c10_catalogue_repeat(res, c, rng):
                     if vhash([g1, g2]) != hg:
                         return _viol(res, sig, "foreign_write", case, "cotangent modified")
                     _cnt(res, "catalogue_vjp_repeats")
+                    # a fresh closure whose FIRST cotangents are zero on part of the output (what jacobian does:
+                    # one basis vector after the other): a decision a rule takes from the cotangent's value must be
+                    # taken again for every cotangent
+                    lv = common.leaves(y0)
+                    if sum(onp.size(l) for l in lv) >= 2:
+                        vjp3 = make_vjp(acall, x0)[0]
+                        zero_all = common.tree_map(lambda l: onp.zeros(onp.shape(l), dtype=onp.asarray(l).dtype) if onp.ndim(l) else onp.asarray(l).dtype.type(0), g2)
+                        vjp3(zero_all)
+                        for part in (0, 1):
+                            cnt_ = [0]
+
+                            def keep(l, part=part, cnt_=cnt_):
+                                a_ = onp.array(l)
+                                flat_ = a_.reshape(-1)
+                                for j_ in range(flat_.size):
+                                    if (cnt_[0] + j_) % 2 != part:
+                                        flat_[j_] = 0
+                                cnt_[0] += flat_.size
+                                return a_ if onp.ndim(l) else a_.dtype.type(a_)
+
+                            gp = common.tree_map(keep, g2)
+                            if not bits_equal(vjp3(gp), make_vjp(acall, x0)[0](gp)):
+                                return _viol(res, sig, "unstable_repeat", case, "a VJP function first called with cotangents that are zero on part of the output answers later cotangents differently from a fresh one")
+                        if not bits_equal(vjp3(g2), fresh2):
+                            return _viol(res, sig, "unstable_repeat", case, "a VJP function first called with (partly) zero cotangents answers a full cotangent differently from a fresh one")
+                        _cnt(res, "catalogue_vjp_zero_first")
                 except ValueError as e:
                     if "read-only" in str(e):
                         # does the same call succeed on writable copies? then the write is autograd's
@@ -790,6 +901,29 @@ def c11_index_case(res, case, tier):
             return _viol(res, sig, "wrong_shape", case, "%s vs %s" % (onp.shape(got), x.shape))
         if not onp.allclose(got, expected, rtol=1e-13, atol=1e-13):
             return _viol(res, sig, "wrong_value", case, "scatter mismatch: got %s expected %s" % (common.brief(onp.asarray(got)), common.brief(expected)))
+        # a cotangent with non-finite entries (the slope of sqrt at a gathered 0, a masked-out overflow): only the
+        # positions those output elements were read from may become non-finite, every other position keeps the
+        # scatter of the finite part exactly
+        if sel.size >= 1:
+            w2 = w.copy()
+            flat_ids = onp.asarray(ids).ravel()
+            bad_out = [0] if sel.size == 1 else [0, sel.size - 1]
+            w2.ravel()[bad_out[0]] = onp.inf
+            if len(bad_out) > 1:
+                w2.ravel()[bad_out[1]] = onp.nan
+            try:
+                got2 = onp.asarray(vjp(w2))
+            except Exception as e:
+                return _viol(res, sig, "exception:" + type(e).__name__, case, "pull-back of a cotangent with non-finite entries raised: %s" % str(e)[:200])
+            hit = onp.zeros(x.size, dtype=bool)
+            hit[flat_ids[bad_out]] = True
+            wf = w2.ravel().copy()
+            wf[bad_out] = 0.0
+            exp2 = onp.bincount(flat_ids, weights=wf, minlength=x.size)
+            g2f = got2.ravel()
+            if got2.shape != x.shape or not onp.all(onp.isfinite(g2f[~hit])) or not onp.allclose(g2f[~hit], exp2[~hit], rtol=1e-13, atol=1e-13):
+                return _viol(res, sig, "nonfinite_spread", case, "a non-finite cotangent entry changed positions it was not read from: got %s, finite part expected %s, positions read by the non-finite entries %s" % (common.brief(got2), common.brief(exp2.reshape(x.shape)), onp.flatnonzero(hit).tolist()))
+            _cnt(res, "nonfinite_cotangent_checked")
         # through grad of a weighted sum too (goes through add_outgrads sparse path at the root)
         g2 = make_vjp(lambda t: anp.sum(w * t[idx]), x)[0](1.0)
         if not onp.allclose(g2, expected, rtol=1e-13, atol=1e-13):
@@ -1042,6 +1176,11 @@ def _run_one(pid, res, case, tier):
         return c03_case(res, case, tier)
     if k == "toposort":
         return c03_toposort_replay(res, case)
+    if k == "c03_fixed":
+        r2 = _new_result()
+        c03_guards_and_depth(r2)
+        res["violations"].extend(v for v in r2["violations"] if v["case"] == case)
+        return
     if k == "c10":
         return c10_case(res, case, tier)
     if k == "c10_container":
@@ -1092,6 +1231,8 @@ def run_shard(pid, tier, seed, idx, n):
     if pid == "C03":
         rng = onp.random.Generator(onp.random.PCG64([seed, idx, 13]))
         c03_toposort(res, rng, (3000 if tier == "quick" else 50000) // n)
+        if idx == 2 % n:
+            c03_guards_and_depth(res)
     res["sets"] = {k: sorted(v) for k, v in res["sets"].items()}
     res["counters"]["wall_ms"] = int((time.time() - t0) * 1000)
     return res
